@@ -194,7 +194,7 @@ def t3(ctx):
                 if not (isinstance(t, ast.Compare) and len(t.ops) == 1 and isinstance(t.ops[0], (ast.NotEq, ast.Eq))):
                     continue
                 diff = "t" if isinstance(t.ops[0], ast.NotEq) else "f"
-                if y.id in cfg.reachable([cfg.entry], block_edges=[(tn, m, l) for m, l in tn.succ if l == diff]):
+                if y.id in cfg.reachable([cfg.entry], block_edges=cfg.test_edges(tn, diff)):
                     continue
                 sides = [t.left, t.comparators[0]]
                 if any(from_listing(tn, a_) and not from_listing(tn, b_) for a_, b_ in (sides, sides[::-1])):
